@@ -63,16 +63,24 @@ ASSUMPTIONS = [
     "child shows started by a `shows:` step may be kept, advanced or replaced when the parent re-plays the step; "
     "each instance must follow its own schedule and must be stopped when the parent stops",
     "a last step consisting only of `time:` is the show format's end marker (gives the previous step its length)",
+    "twin-light family: two identically configured lights get the same lower shows at the same instants, only one "
+    "of them additionally gets covering shows; once every covering show is stopped (and the light's default "
+    "fade-out, if any, is over) Light.get_color() of both must be equal at every sampled instant, exactly (colour is "
+    "a pure function of the stack and the virtual time); all shows of a case have distinct priorities (equal "
+    "priorities are ordered by the context string, which differs between the twins)",
 ]
 HORIZONS = {"final_settle_s": 3.0}
 TIERS = {
-    "quick": {"cases": 2000, "batch": 50, "case_timeout": 90},
-    "thorough": {"cases": 40000, "batch": 250, "case_timeout": 180},
+    "quick": {"cases": 2300, "batch": 50, "case_timeout": 90},
+    "thorough": {"cases": 44000, "batch": 250, "case_timeout": 180},
 }
+# cases with index >= TWIN_FROM[tier] belong to the "twin light" family (differential never-ran oracle, see _run_twin)
+TWIN_FROM = {"quick": 2000, "thorough": 40000}
 _MIN_Q = {"step_time": 80000, "step_index": 80000, "step_effects": 200000, "light_start_time": 100000,
           "events": 50000, "cleanup_light": 20000, "cleanup_instances": 200000, "no_step_after_stop": 100000,
           "completion": 150, "routing": 8000, "final_state": 5000, "immediate_step": 50000, "start_time": 150,
-          "stop_explained": 1500, "sync_effective": 4000, "sync_zero_on_grid": 150}
+          "stop_explained": 1500, "sync_effective": 4000, "sync_zero_on_grid": 150,
+          "cover_removed_twin": 2500, "cover_removed_twin_midfade": 300}
 MIN_EVALS = {"quick": _MIN_Q, "thorough": {k: v * 10 for k, v in _MIN_Q.items()}}
 SHRINK_KEYS = ["ops"]
 
@@ -175,6 +183,8 @@ def _gen_variant(rng, vid, show, scope, key, force=None):
 
 
 def gen_case(rng, tier, index):
+    if index >= TWIN_FROM.get(tier, 1 << 60):
+        return _gen_twin(rng)
     long_run = index % 10 == 9
     case = {"latency": rng.random() < 0.5 or long_run, "long": long_run,
             "default_sync_ms": rng.choice([0, 0, 0, 0, 0, 400, 150, 250])}
@@ -263,6 +273,213 @@ def gen_case(rng, tier, index):
                         rng.choice([[1, 2, 3], [200, 100, 0], None])])
     case.update({"shows": shows, "variants": variants, "ops": ops})
     return case
+
+
+# =============================================================================================
+# twin-light family: "as if the stopped show had never run", observed differentially
+TW_COLORS = ["red", "blue", "lime", "yellow", "white", "ff8000", "123456", "00ffff", "800080", "black"]
+TW_FADES = [200, 300, 500, 800, 1000, 1500, 2000]
+TW_ADV_COVER = [0, 50, 100, 250, 400, 500, 650, 800, 1000, 1200, 1700, 2300]
+TW_ADV_SAMPLE = [0, 1, 10, 37, 50, 100, 125, 250, 333, 500, 900]
+
+
+def _gen_twin_show(rng, nsteps, fade_p, hold_last=False):
+    steps = []
+    for j in range(nsteps):
+        ms = rng.choice([250, 500, 750, 1000, 1500, 2000, 3000])
+        if hold_last and j == nsteps - 1:
+            ms = -1
+        fade = rng.choice(TW_FADES) if rng.random() < (fade_p if j else fade_p / 2) else None
+        steps.append({"ms": ms, "color": rng.choice(TW_COLORS), "fade": fade,
+                      "form": rng.choice(["str", "str", "dict"]),
+                      "dark": j > 0 and rng.random() < 0.08})
+    return steps
+
+
+def _gen_twin(rng):
+    nlow = rng.choice([1, 1, 2])
+    prios = rng.sample([0, 1, 2, 3, 5, 8], nlow)
+    lows = []
+    for i in range(nlow):
+        lows.append({"steps": _gen_twin_show(rng, rng.choice([2, 3, 3, 4, 5]), 0.65), "prio": prios[i],
+                     "loops": rng.choice([-1, -1, -1, 0, 1]), "speed": rng.choice([1, 1, 1, 0.5, 2])})
+    cprios = rng.sample([4, 10, 20, 60], 2)
+    covers = [{"steps": _gen_twin_show(rng, rng.choice([1, 1, 2, 3]), 0.3, hold_last=rng.random() < 0.6),
+               "prio": cprios[i], "loops": -1, "speed": 1} for i in range(2)]
+    ops = [["low_play", 0]]
+    second_started = nlow == 1
+    for _ in range(rng.randint(1, 3)):
+        ops.append(["adv", rng.choice([0, 100, 300, 500, 700, 1000, 1500])])
+        if not second_started and rng.random() < 0.6:
+            ops.append(["low_play", 1])
+            second_started = True
+        ops.append(["cover_play", 0])
+        two = rng.random() < 0.2
+        for _ in range(rng.randint(1, 3)):
+            ops.append(["adv", rng.choice(TW_ADV_COVER)])
+            k = rng.random()
+            if k < 0.15:
+                ops.append(["low_ctl", rng.randrange(nlow), rng.choice(["advance", "pause", "resume", "step_back"])])
+            elif k < 0.3 and two:
+                ops.append(["cover_play", 1])
+                two = False
+            elif k < 0.4 and not second_started:
+                ops.append(["low_play", 1])
+                second_started = True
+        ops.append(["cover_stop"])
+        if rng.random() < 0.3:
+            ops.append(["adv", rng.choice([0, 50, 200])])
+        ops.append(["cover_stop"])
+        for _ in range(rng.randint(3, 8)):
+            ops.append(["adv", rng.choice(TW_ADV_SAMPLE)])
+            if rng.random() < 0.06:
+                ops.append(["low_ctl", rng.randrange(nlow), rng.choice(["advance", "resume", "pause"])])
+    return {"family": "twin", "lows": lows, "covers": covers, "ops": ops,
+            "light_fade": rng.choice([0, 0, 0, 100]), "lead_ms": rng.choice([0, 250, 13])}
+
+
+def _twin_show_yaml(steps):
+    out = []
+    for st in steps:
+        y = {"duration": -1 if st["ms"] == -1 else "%dms" % st["ms"]}
+        if not st["dark"]:
+            if st["form"] == "dict":
+                v = {"color": st["color"]}
+                if st["fade"] is not None:
+                    v["fade"] = "%dms" % st["fade"]
+            else:
+                v = st["color"] if st["fade"] is None else "%s-f%dms" % (st["color"], st["fade"])
+            y["lights"] = {"(led)": v}
+        out.append(y)
+    return out
+
+
+def _run_twin(case):
+    from vlib.boot import VMachine, MpfCrash
+
+    viol = []
+    clauses = {"cover_removed_twin": 0, "cover_removed_twin_midfade": 0}
+    obs = {"twin_cases": 1, "twin_cover_stops": 0, "twin_cover_stops_inside_lower_fade": 0,
+           "twin_samples_while_lower_fade_running": 0, "twin_lower_refade_while_covered": 0,
+           "twin_samples_skipped_cover_fadeout": 0, "virtual_seconds": 0}
+    lights = {}
+    for name, num in (("ta", 10), ("tb", 14)):
+        lights[name] = {"number": num, "subtype": "led", "type": "rgb"}
+        if case.get("light_fade"):
+            lights[name]["fade_ms"] = int(case["light_fade"])
+    show_files = {}
+    for i, lo in enumerate(case["lows"]):
+        show_files["low%d" % i] = _twin_show_yaml(lo["steps"])
+    for i, co in enumerate(case["covers"]):
+        show_files["cover%d" % i] = _twin_show_yaml(co["steps"])
+    shape = []
+    with VMachine({"lights": lights}, shows=show_files) as vm:
+        m = vm.machine
+        la, lb = m.lights["ta"], m.lights["tb"]
+        running_low = {}        # i -> (show on ta, show on tb)
+        running_cover = []      # RunningShow on ta only
+        st = {"clear_from": 0.0, "last_stop": None, "reported": 0}
+
+        def settle():
+            for _ in range(50):
+                vm.advance(0)
+                if not vm.loop._ready and not m.events.event_queue:
+                    break
+
+        def lower_fading(light):
+            now = vm.now()
+            return any(e.dest_time and e.dest_time > now and e.dest_color is not None for e in light.stack)
+
+        def compare(after):
+            now = vm.now()
+            if running_cover:
+                return
+            if now < st["clear_from"]:
+                obs["twin_samples_skipped_cover_fadeout"] += 1
+                return
+            if st["last_stop"] is None:
+                return          # no cover has been stopped yet: nothing to compare against
+            ca, cb = tuple(la.get_color()), tuple(lb.get_color())
+            clauses["cover_removed_twin"] += 1
+            if lower_fading(lb):
+                clauses["cover_removed_twin_midfade"] += 1
+                obs["twin_samples_while_lower_fade_running"] += 1
+            if ca != cb:
+                st["reported"] += 1
+                if st["reported"] <= 2:
+                    viol.append({"clause": "cover_removed_twin",
+                                 "sig": "C17:light_differs_from_twin_that_never_saw_stopped_show",
+                                 "detail": {"now": now, "cover_stopped_at": st["last_stop"], "after_op": after,
+                                            "light_with_stopped_cover": ca, "twin_without_cover": cb,
+                                            "stack_a": [repr(e) for e in la.stack],
+                                            "stack_b": [repr(e) for e in lb.stack]}})
+
+        try:
+            vm.advance(case.get("lead_ms", 0) / 1000.0 + 0.25)
+            for op in case["ops"]:
+                kind = op[0]
+                if kind == "adv":
+                    shape.append("A" + _bucket(op[1]))
+                    vm.advance(op[1] / 1000.0)
+                    obs["virtual_seconds"] += op[1] / 1000.0
+                elif kind == "low_play":
+                    i = op[1]
+                    if i >= len(case["lows"]) or i in running_low:
+                        continue
+                    lo = case["lows"][i]
+                    shape.append("L%d" % len(lo["steps"]))
+                    pair = []
+                    for led in ("ta", "tb"):
+                        pair.append(m.shows["low%d" % i].play(priority=lo["prio"], loops=lo["loops"], speed=lo["speed"],
+                                                               show_tokens={"led": led}, sync_ms=0))
+                    running_low[i] = tuple(pair)
+                elif kind == "low_ctl":
+                    pair = running_low.get(op[1])
+                    if not pair:
+                        continue
+                    shape.append("c" + op[2][0:2])
+                    covered = bool(running_cover)
+                    for rs in pair:
+                        getattr(rs, op[2])()
+                    if covered and lower_fading(lb):
+                        obs["twin_lower_refade_while_covered"] += 1
+                elif kind == "cover_play":
+                    i = op[1]
+                    if i >= len(case["covers"]) or any(c[0] == i for c in running_cover):
+                        continue
+                    co = case["covers"][i]
+                    shape.append("C%d" % len(co["steps"]))
+                    rs = m.shows["cover%d" % i].play(priority=co["prio"], loops=co["loops"], speed=co["speed"],
+                                                     show_tokens={"led": "ta"}, sync_ms=0)
+                    running_cover.append((i, rs))
+                elif kind == "cover_stop":
+                    if not running_cover:
+                        continue
+                    shape.append("X")
+                    i, rs = running_cover.pop(0)
+                    rs.stop()
+                    obs["twin_cover_stops"] += 1
+                    if lower_fading(lb):
+                        obs["twin_cover_stops_inside_lower_fade"] += 1
+                    st["last_stop"] = vm.now()
+                    st["clear_from"] = max(st["clear_from"], vm.now() + case.get("light_fade", 0) / 1000.0 + 0.001)
+                settle()
+                compare(op)
+            # wind down: everything stopped -> both dark
+            for c in running_cover:
+                c[1].stop()
+            del running_cover[:]
+            for pair in running_low.values():
+                for rs in pair:
+                    rs.stop()
+            vm.advance(1.0)
+            compare(["end"])
+        except MpfCrash as e:
+            viol.append({"clause": "cover_removed_twin", "sig": "C17:crash_in_show_code",
+                         "detail": {"exc": repr(e)[:700]}})
+    return {"violations": viol, "clauses": clauses,
+            "shape": "TW%d:%s#%s" % (len(case["lows"]), "".join(shape), "f" if case.get("light_fade") else "n"),
+            "nontrivial": clauses["cover_removed_twin"] > 0, "obs": obs}
 
 
 # =============================================================================================
@@ -400,6 +617,8 @@ class _Latency:
 def run_case(case):
     from vlib.boot import guard_import
     guard_import()
+    if case.get("family") == "twin":
+        return _run_twin(case)
     lat = _Latency(bool(case.get("latency")))
     restore = []
     try:
